@@ -313,12 +313,19 @@ theorem run_outs (mode : OutMode) (l : List (Path × Bytes)) (data : Path → By
 
 def Plan.wf (pl : Plan) : Prop := ∀ o ∈ pl.outs, IsOut o.1
 
+theorem target_p1 (x : P1) : ∃ n, x.block.target = .blob n := by
+  cases x <;> exact ⟨_, rfl⟩
+
 theorem pre0_other (pl : Plan) {p : Path} (hp : IsOut p ∨ p = .manifest ∨ p = .info) :
     ∀ b ∈ pl.pre0, b.target ≠ p := by
   intro b hb
   simp only [Plan.pre0, List.mem_append, List.mem_cons, List.mem_map, List.mem_nil_iff, or_false] at hb
-  rcases hp with ⟨f, rfl | rfl⟩ | rfl | rfl <;>
-    rcases hb with (rfl | rfl) | ⟨x, _, rfl⟩ <;> simp [Block.target]
+  rcases hb with (rfl | rfl) | ⟨x, _, rfl⟩
+  · rcases hp with ⟨f, rfl | rfl⟩ | rfl | rfl <;> simp [Block.target]
+  · rcases hp with ⟨f, rfl | rfl⟩ | rfl | rfl <;> simp [Block.target]
+  · obtain ⟨n, hn⟩ := target_p1 x
+    rw [hn]
+    rcases hp with ⟨f, rfl | rfl⟩ | rfl | rfl <;> simp
 
 theorem pre1_other (mode : OutMode) (pl : Plan) {p : Path} (hp : IsOut p ∨ p = .manifest ∨ p = .info) :
     ∀ b ∈ pl.pre1 mode, b.target ≠ p := by
